@@ -183,23 +183,6 @@ func (m *Machine) reportHang() {
 	m.recordViolation(nil, m.harnessName+".hang", "hang", m.hangString(), model, smodel)
 }
 
-// ---------- SMT strings (unbounded) — see strterm.go ----------
-
-func (m *Machine) smtStrEq(x, y Value) *Term {
-	m.unsupported("SMT string equality")
-	return nil
-}
-
-func (m *Machine) smtStrConcat(x, y Value) Value {
-	m.unsupported("SMT string concat")
-	return nil
-}
-
-func (m *Machine) smtStrLen(x *SmtStr) Value {
-	m.unsupported("SMT string len")
-	return nil
-}
-
 func funcPkgPath(fn *ssa.Function) string {
 	for f := fn; f != nil; f = f.Parent() {
 		if f.Pkg != nil {
